@@ -68,7 +68,7 @@ pub fn run_c02(shard: &Shard) -> i32 {
     if let Some(path) = &shard.replay { return replay(path, PROP); }
     case_loop(shard, u64::MAX, |_i, rng| {
         let kind = if shard.idx % 4 == 3 { 3 } else { rng.below(3) };
-        let p = Profile { with_dominance: true, small: rng.chance(1, 3), depth_free_bias: rng.chance(1, 3), ..Default::default() };
+        let p = Profile { with_dominance: true, small: rng.chance(1, 3), depth_free_bias: rng.chance(1, 3), medium_share: 1, ..Default::default() };
         let mut spec = if kind == 2 { tiny_spec(rng, false) } else { random_spec(rng, &p) };
         spec.cfg.monitors = 0;
         match kind {
@@ -150,7 +150,7 @@ pub fn run_c09(shard: &Shard) -> i32 {
     if let Some(path) = &shard.replay { return replay(path, PROP); }
     case_loop(shard, u64::MAX, |_i, rng| {
         let kind = if shard.idx % 4 == 3 { 2 } else if shard.idx % 4 == 2 { 1 } else { 0 };
-        let p = Profile { with_dominance: true, reconvergent: rng.chance(3, 4), small: rng.chance(1, 2), depth_free_bias: rng.chance(1, 2), ..Default::default() };
+        let p = Profile { with_dominance: true, reconvergent: rng.chance(3, 4), small: rng.chance(1, 2), depth_free_bias: rng.chance(1, 2), medium_share: 2, ..Default::default() };
         let mut spec = if kind == 1 { let mut s = tiny_spec(rng, false); if rng.chance(1, 2) { s.size |= crate::models::tmodel::F_RECONVERGENT; } s } else { random_spec(rng, &p) };
         spec.cfg.monitors = 0;
         match kind {
@@ -344,7 +344,7 @@ pub fn run_c15(shard: &Shard) -> i32 {
     set_current(PROP, false);
     if let Some(path) = &shard.replay { return replay(path, PROP); }
     case_loop(shard, u64::MAX, |_i, rng| {
-        let p = Profile { long_arcs_only: true, small: rng.chance(1, 3), max_width: 3, ..Default::default() };
+        let p = Profile { long_arcs_only: true, small: rng.chance(1, 3), max_width: 3, medium_share: 2, ..Default::default() };
         let mut spec = random_spec(rng, &p);
         match shard.idx % 4 {
             2 => { spec.cfg.par = Some(Par { n0: 1 + rng.usize(3), n1: None, mode: sched_mode(rng, false) }); }
